@@ -148,6 +148,13 @@ func (e *Exec) intrinsic(fn *ssa.Function, name string, args []Value) (Value, bo
 		return e.st.Or(args[0].(*Term), args[1].(*Term)), true
 	case "vImplies":
 		return e.st.Or(e.st.Not(args[0].(*Term)), args[1].(*Term)), true
+	case "vObserve":
+		nm, ok := args[0].(*StringV)
+		if !ok || nm.isSym {
+			e.unsupported("vObserve needs a constant name")
+		}
+		e.observed = append(e.observed, Observation{nm.lit, args[1].(*Term)})
+		return nil, true
 	case "vNote":
 		e.events = append(e.events, Event{Kind: "note:" + e.constString(args[0])})
 		return nil, true
